@@ -130,7 +130,7 @@ def _eval_config(job):
         st = {"functions_analysed": len(prog.fns), "call_sites": sum(len(f.calls()) for f in prog.fns.values()), "instructions": len(am.instructions),
               "accounts_structs": len(am.structs), "bool_joins_threaded": sum(f.nthreaded for f in prog.fns.values())}
     return {"instances": inst, "floors": dict(ctx.floors), "tables": {"%s@%s" % (k, cfg): v for k, v in ctx.tables.items()},
-            "config": {"config": cfg, "tree_hash": meta["tree_hash"], "files_hashed": meta["files_hashed"]}, "stats": st}
+            "config": {"config": cfg, "tree_hash": meta["tree_hash"], "files_hashed": meta["files_hashed"]}, "stats": st, "notes": list(ctx.notes)}
 
 
 def run_property(pid, tier, replay=None):
@@ -156,7 +156,11 @@ def run_property(pid, tier, replay=None):
             results = pool.map(_eval_config, built)
     else:
         results = [_eval_config(b) for b in built]
+    prep_notes = []
     for res in results:
+        for n_ in res.get("notes", []):
+            if n_ not in prep_notes:
+                prep_notes.append(n_)
         all_inst.extend(res["instances"])
         floors = res["floors"]
         tables.update(res["tables"])
@@ -224,6 +228,9 @@ def run_property(pid, tier, replay=None):
             **stats,
         },
         "assumptions": info.get("assumptions", []),
+        "normalisations": {"rule": "before any rule runs: snapshot helpers that were renamed are found by content; functions absent from the reviewed "
+                                   "function list (rules/known_fns.json) are spliced into their callers at MIR level; boolean / discriminant joins are threaded",
+                           "applied_on_this_tree": prep_notes},
         "wall_s": round(time.time() - t0, 2),
         "violations": len(new),
         "known_findings": [{"rule": v["rule"], "construct": v["construct"]} for v in kn],
